@@ -94,7 +94,7 @@ func init() {
 			b.WriteString("]\n\n")
 		}
 		emit("globalWrites", "package-level variables written outside init: `pkg.var kind in func`", globalWrites)
-		emit("appendBases", "package-level slices used as the base of append: `pkg.var in func`", appendBases)
+		emit("appendBases", "package-level slices used as the base of append: `pkg.var` (their cap == len is checked at run time through the VerifGlobals hook)", appendBases)
 		emit("globalArgs", "package-level slices/maps passed as call arguments: `pkg.var -> callee#argIndex`", globalArgs)
 		{ // the distinct callee#argIndex set, separately, so that Lean needs no string splitting
 			set := map[string]bool{}
@@ -255,7 +255,7 @@ func c13Package(p *packages.Package, short string, globalWrites, appendBases, gl
 						if _, isBuiltin := info.Uses[id].(*types.Builtin); isBuiltin {
 							if id.Name == "append" && len(x.Args) > 0 {
 								if v, ok := baseGlobal(x.Args[0]); ok {
-									*appendBases = append(*appendBases, fmt.Sprintf("%s.%s in %s", short, v.Name(), fname))
+									*appendBases = append(*appendBases, fmt.Sprintf("%s.%s", short, v.Name()))
 								}
 							}
 							if id.Name == "copy" && len(x.Args) > 0 {
